@@ -36,7 +36,8 @@ AfterFS(r) ==
   [p \in (DOMAIN f \ rem) \cup new |->
       IF p \in new THEN [kind |-> nodeAt(p).kind, data |-> nodeAt(p).data] ELSE f[p]]
 
-Bad(name) == PrintT(<<"BAD", name, i>>) /\ FALSE
+\* always TRUE: the BAD lines on stdout are the verdict (see BUILDING.md)
+Bad(name) == PrintT(<<"BAD", name, i>>)
 Live == i <= Len(Trace)
 
 RecNoPanic     == (Live => ~Trace[i].panic) \/ Bad("RecNoPanic")
